@@ -31,7 +31,7 @@ LEVEL_NOTE = ("Trusted base: sim/world.py (switches only at synchronisation poin
 QUICK_WORKERS = 4
 WORKERS = 14
 
-FLAVOURS = ('reconnect', 'replace', 'control', 'requests', 'trash', 'two_sessions', 'keyspace_sync', 'control_fail', 'trash_convict', 'trash_lenient')
+FLAVOURS = ('reconnect', 'replace', 'control', 'requests', 'trash', 'two_sessions', 'keyspace_sync', 'control_fail', 'trash_convict', 'trash_lenient', 'reconnect_cancel', 'control_sched')
 INF = 10 ** 9
 
 K_TRASH = "trashed-connection-never-closed-by-hostconnection-shutdown"
@@ -123,12 +123,15 @@ def run_history(seed, variant, k):
         uid = uid_of(req['query'])
         if uid is None:
             cf = ctrl_fail
-            if cf.get('count', 0) > 0 and cstate.conn.sim_creator == 'control' and cstate.conn.sim_id >= cf['from_conn'] and 'system.local' in req['query'].lower():
+            if cf.get('count', 0) > 0 and cstate.conn.sim_id >= cf['from_conn'] and 'system.local' in req['query'].lower():      # (only control connections ask system.local; a scheduled control reconnection is tagged 'reconnector')
                 # the control connection that is being set up gets a late server error for its system.local query: the attempt fails, not with a
                 # connection error, after `delay`
                 cf['count'] -= 1
                 S['control_queries_failed_late'] = S.get('control_queries_failed_late', 0) + 1
-                r = node.error(cstate, req, 'server', 'scripted server error')
+                if cf.get('mode') == 'late':
+                    r = node.default_reaction(cstate, req)      # the ordinary answer, only late: the attempt is in flight for `delay`
+                else:
+                    r = node.error(cstate, req, 'server', 'scripted server error')
                 timed_release(req, cf['delay'])
                 return ('hold', r[1])
             hu = hold_use.get(a)
@@ -306,6 +309,50 @@ def run_history(seed, variant, k):
                 if S['stop']:
                     return
                 n1.up = True
+                sleep(0.8)
+            elif flavour == 'reconnect_cancel':
+                # node 2's pool connection is reset (host down); the reconnector's probe connects but its handshake answer is late; meanwhile the
+                # server announces the node as UP: on_up cancels the reconnection handler and builds the pool; the probe then completes for a
+                # handler that has been cancelled
+                from sim.node import ip_bytes
+                from spec import frames as F_
+                hold_handshake['127.0.0.2'] = [1, 0.6, 'OPTIONS', 'reconnector']
+                request(session, host=h2, act='reset')
+                if S['stop']:
+                    return
+                sleep(0.7)
+                if S['stop']:
+                    return
+                for nd_ in env.net.nodes.values():
+                    nd_.push_event(F_.body_event_status('UP', ip_bytes('127.0.0.2'), 9042))
+                sleep(0.8)
+                if S['stop']:
+                    return
+                request(session, host=h2)
+                sleep(0.3)
+            elif flavour == 'control_sched':
+                # both nodes go away for a moment: the control connection's immediate reconnect finds no host and a _ControlReconnectionHandler is
+                # scheduled; when its attempt runs the nodes are back and the new control connection's system.local answer is late, so the scheduled
+                # attempt is in flight for a while
+                cc = cluster.control_connection._connection
+                n1.up = False
+                n2.up = False
+                if cc is not None:
+                    env.net.server_close(cc, reset=True)
+                request(session, host=hosts.get('127.0.0.1'), act='reset')
+                request(session, host=h2, act='reset')
+                if S['stop']:
+                    return
+                sleep(0.2)
+                n1.up = True
+                n2.up = True
+                ctrl_fail.update({'from_conn': len(env.net.conns), 'count': 1, 'delay': 0.5, 'mode': 'late'})
+                if S['stop']:
+                    return
+                sleep(1.0)
+                if S['stop']:
+                    return
+                request(session)
                 sleep(0.8)
             elif flavour == 'control_fail':
                 # three nodes: node 1 (control connection host) goes away; the control connection reconnects over the other two hosts and its first
@@ -656,7 +703,7 @@ def run(ctx):
     from vlib.run import Inconclusive
     from sim.world import WorldLimit
     ctx.rule = ("a case is (history variant, injection step k): variant = what happens (reconnect / replace / control / requests / trash / "
-                "two_sessions / keyspace_sync / control_fail / trash_convict / trash_lenient) x protocol (v4 HostConnection, v2 HostConnectionPool) x which shutdown (Cluster / Session); for each variant all k in "
+                "two_sessions / keyspace_sync / control_fail / trash_convict / trash_lenient / reconnect_cancel / control_sched) x protocol (v4 HostConnection, v2 HostConnectionPool) x which shutdown (Cluster / Session); for each variant all k in "
                 "0..N are run (N = scheduling steps of the uninterrupted history); distinct by (variant, k); non-trivial = the cluster object existed "
                 "at step k")
     ctx.assume("requests that were in flight when shutdown was called are not judged (they carry finite timeouts); only a request issued after the call returned must not stay pending")
@@ -667,7 +714,7 @@ def run(ctx):
     order = list(range(len(allv)))
     first = [allv.index(('reconnect', 4, 'session')), allv.index(('control', 4, 'cluster')), allv.index(('replace', 2, 'cluster')),
              allv.index(('trash', 4, 'cluster')),
-             allv.index(('keyspace_sync', 4, 'session')), allv.index(('keyspace_sync', 2, 'cluster')), allv.index(('trash_convict', 4, 'cluster')),
+             allv.index(('keyspace_sync', 4, 'session')), allv.index(('reconnect_cancel', 4, 'cluster')), allv.index(('trash_convict', 4, 'cluster')),
              allv.index(('control_fail', 4, 'cluster'))]
     if ctx.quick:
         first = first[:8]
@@ -682,7 +729,7 @@ def run(ctx):
     while ctx.time_left(budget) > 0:
         # measure every variant of this worker, then inject: first at the steps after connect() of each variant in turn (the connect phase is the
         # same in every variant), then at the connect-phase steps
-        plan_post, plan_pre, left = [], [], {}
+        plan_post, plan_pre, left, c0s = [], [], {}, {}
         for variant in mine:
             if ctx.time_left(budget) < 0:
                 break
@@ -702,10 +749,20 @@ def run(ctx):
             ks = list(range(0, N + 1))
             random.Random(seed).shuffle(ks)         # a partial enumeration (time budget) is spread evenly
             c0 = R0['info'].get('connect_steps', 0)
+            c0s[(variant, seed)] = c0
             plan_post.append((variant, seed, N, [k for k in ks if k >= c0]))
             plan_pre.append((variant, seed, N, [k for k in ks if k < c0]))
             left[(variant, seed)] = N + 1
-        for variant, seed, N, ks in plan_post + plan_pre:
+        # the connect phase is the last to be enumerated; so that a time-boxed run has looked at it at all, a spread sample of its steps
+        # goes first (Cluster.shutdown() racing connect() is only visible with a cluster-wide shutdown)
+        plan_connect = []
+        for i, (variant, seed, N, ks) in enumerate(plan_pre):
+            if variant[2] == 'cluster' and ks:
+                n_first = 24 if ctx.quick else 60
+                plan_connect.append((variant, seed, N, ks[:n_first]))
+                plan_pre[i] = (variant, seed, N, ks[n_first:])
+                break
+        for variant, seed, N, ks in plan_connect + plan_post + plan_pre:
             for k in ks:
                 if ctx.time_left(budget) < 0:
                     break
@@ -729,6 +786,8 @@ def run(ctx):
                     raise Inconclusive("parse failure in %r seed %d k=%d: %r" % (variant, seed, k, env.net.parse_failures[:1]))
                 info = R['info']
                 ctx.count("injections_of_%s_shutdown" % info.get('target', '?'))
+                if k < c0s.get((variant, seed), 0):
+                    ctx.count("injections_while_connect_was_running")
                 ctx.count("connections_judged", info.get('conns', 0))
                 ctx.count("connections_opened_while_shutdown_ran", info.get('during', 0))
                 ctx.count("requests_after_shutdown_" + str(info.get('probe')))
@@ -753,4 +812,4 @@ def run(ctx):
                 ctx.count("variant_complete: %s v%d %s" % variant)
         rounds += 1          # time left: enumerate the same variants again under another seed
     ctx.floor_distinct = 40 if ctx.quick else 1500
-    ctx.floor_counters = {"shutdown_injections": 40, "variants_started": 2, "connections_judged": 150}
+    ctx.floor_counters = {"shutdown_injections": 40, "variants_started": 2, "connections_judged": 150, "injections_while_connect_was_running": 20}
